@@ -425,36 +425,22 @@ fn gen_sparse_large(rng: &mut Rng, min_n: usize, max_n: usize) -> AG {
     AG { directed: false, n, edges }
 }
 
-fn gen_large_matching_graph(rng: &mut Rng, directed: bool, thorough: bool) -> (AG, &'static str) {
-    let max_n = if thorough { 18 } else { 16 };
-    let k = rng.weighted(&[12, 12, 16, 16, 26, 18]);
-    let piece = |rng: &mut Rng, k: usize, max_n: usize| -> AG {
-        match k {
-            4 => gen_barrier(rng, max_n),
-            0 => gen_cactus(rng, max_n),
-            1 => gen_flower(rng, max_n),
-            2 => gen_ears(rng, max_n),
-            5 => gen_comb(rng, max_n),
-            _ => gen_sparse_large(rng, max_n.min(10).max(max_n * 5 / 8), max_n),
-        }
-    };
-    let mut name = ["L-cactus", "L-flower", "L-ears", "L-sparse", "L-barrier", "L-comb"][k];
-    let mut ag = if rng.chance(30) {
-        name = "L-pair";
-        // two pieces side by side, joined by 0..2 bridges: independent augmentations
-        let k2 = rng.weighted(&[12, 12, 16, 16, 26, 18]);
-        let h = max_n / 2;
-        let g1 = piece(rng, k, h);
-        let g2 = piece(rng, k2, max_n - h);
-        let mut edges = g1.edges.clone();
-        edges.extend(g2.edges.iter().map(|&(a, b, w)| (a + g1.n, b + g1.n, w)));
-        for _ in 0..rng.below(3) {
-            edges.push((rng.below(g1.n), g1.n + rng.below(g2.n), 1));
-        }
-        AG { directed: false, n: g1.n + g2.n, edges }
-    } else {
-        piece(rng, k, max_n)
-    };
+fn large_piece(rng: &mut Rng, k: usize, max_n: usize) -> AG {
+    match k {
+        4 => gen_barrier(rng, max_n),
+        0 => gen_cactus(rng, max_n),
+        1 => gen_flower(rng, max_n),
+        2 => gen_ears(rng, max_n),
+        5 => gen_comb(rng, max_n),
+        _ => gen_sparse_large(rng, max_n.min(10).max(max_n * 5 / 8), max_n),
+    }
+}
+
+const LARGE_WEIGHTS: [u32; 6] = [12, 12, 16, 16, 26, 18];
+const LARGE_NAMES: [&str; 6] = ["L-cactus", "L-flower", "L-ears", "L-sparse", "L-barrier", "L-comb"];
+
+/// random relabelling and orientation, 10% a loop, 15% a parallel edge, shuffled edge list
+fn finish_large(rng: &mut Rng, mut ag: AG, directed: bool) -> AG {
     let p = random_perm(rng, ag.n);
     ag = ag.relabel(&p);
     for e in ag.edges.iter_mut() {
@@ -472,7 +458,85 @@ fn gen_large_matching_graph(rng: &mut Rng, directed: bool, thorough: bool) -> (A
     }
     rng.shuffle(&mut ag.edges);
     ag.directed = directed;
-    (ag, name)
+    ag
+}
+
+fn gen_large_matching_graph(rng: &mut Rng, directed: bool, thorough: bool) -> (AG, &'static str) {
+    let max_n = if thorough { 18 } else { 16 };
+    let k = rng.weighted(&LARGE_WEIGHTS);
+    let mut name = LARGE_NAMES[k];
+    let ag = if rng.chance(30) {
+        name = "L-pair";
+        // two pieces side by side, joined by 0..2 bridges: independent augmentations
+        let k2 = rng.weighted(&LARGE_WEIGHTS);
+        let h = max_n / 2;
+        let g1 = large_piece(rng, k, h);
+        let g2 = large_piece(rng, k2, max_n - h);
+        let mut edges = g1.edges.clone();
+        edges.extend(g2.edges.iter().map(|&(a, b, w)| (a + g1.n, b + g1.n, w)));
+        for _ in 0..rng.below(3) {
+            edges.push((rng.below(g1.n), g1.n + rng.below(g2.n), 1));
+        }
+        AG { directed: false, n: g1.n + g2.n, edges }
+    } else {
+        large_piece(rng, k, max_n)
+    };
+    (finish_large(rng, ag, directed), name)
+}
+
+// ---- XL family (20..40 nodes): too large for the exhaustive definitional maximum; judged by validity,
+// the Tutte-Berge barrier certificate (proved-sound checker), the proved Gabow model on the canonical
+// view as the complete fallback, and exact equality with the mirror model.
+
+/// 2..5 pieces of the large families (each 5..16 nodes) side by side, consecutive pieces joined by 0..2
+/// bridges (a tree of pieces, sometimes an extra bridge closing a long odd or even cycle through several
+/// pieces), or one piece grown to the whole budget; 20..40 nodes
+fn gen_xl_matching_graph(rng: &mut Rng, directed: bool) -> (AG, &'static str) {
+    let target = 20 + rng.below(21);
+    if rng.chance(25) {
+        // one big piece
+        let k = rng.weighted(&LARGE_WEIGHTS);
+        let mut ag = large_piece(rng, k, target);
+        // the piece generators may stop early: pad with pendant paths so that the size is in range
+        let mut n = ag.n;
+        if n < 20 {
+            let k = 20 - n;
+            add_pendants(rng, &mut ag.edges, &mut n, 40, k);
+            while n < 20 {
+                ag.edges.push((rng.below(n), n, 1));
+                n += 1;
+            }
+            ag.n = n;
+        }
+        return (finish_large(rng, ag, directed), "XL-one");
+    }
+    let mut edges: Vec<(usize, usize, i64)> = Vec::new();
+    let mut n = 0usize;
+    let mut starts: Vec<(usize, usize)> = Vec::new();
+    while n < target {
+        let room = (target - n).min(16);
+        let budget = if room <= 6 { room } else { 5 + rng.below(room - 4) };
+        let k = rng.weighted(&LARGE_WEIGHTS);
+        let g = if budget < 3 { AG { directed: false, n: budget.max(1), edges: (1..budget.max(1)).map(|i| (i - 1, i, 1)).collect() } } else { large_piece(rng, k, budget) };
+        edges.extend(g.edges.iter().map(|&(a, b, w)| (a + n, b + n, w)));
+        if let Some(&(pb, pn)) = starts.last() {
+            for _ in 0..rng.below(3) {
+                edges.push((pb + rng.below(pn), n + rng.below(g.n), 1));
+            }
+        }
+        starts.push((n, g.n));
+        n += g.n;
+    }
+    if starts.len() >= 3 && rng.chance(35) {
+        let (b0, n0) = starts[0];
+        let (b1, n1) = *starts.last().unwrap();
+        edges.push((b0 + rng.below(n0), b1 + rng.below(n1), 1));
+    }
+    while n < 20 {
+        edges.push((rng.below(n), n, 1));
+        n += 1;
+    }
+    (finish_large(rng, AG { directed: false, n, edges }, directed), "XL-multi")
 }
 
 /// layered s-t network with cross and back edges (long augmenting paths, flow cancellation)
@@ -697,51 +761,69 @@ fn matching_case_ty<Ty: petgraph::EdgeType>(ctx: &mut Ctx, rng: &mut Rng, ag: &A
 
 trait Cap: Copy {
     const NAME: &'static str;
+    /// name of the type in quarter mode (capacities are multiples of 1/4); "" = not available
+    const QNAME: &'static str = "";
+    /// the largest integer up to which the arithmetic of the type is exact (clamped to i64)
+    const EXACT_MAX: i64;
     fn of(w: i64) -> Self;
+    /// quarter mode: the capacity `w / 4`
+    fn of_q(w: i64) -> Self {
+        Self::of(w)
+    }
     fn show(self) -> String;
+    /// quarter mode: prints `4 * self` (exact in binary floating point)
+    fn show_q(self) -> String {
+        self.show()
+    }
     fn is_zero(self) -> bool;
 }
 macro_rules! cap_int {
-    ($t:ident) => {
+    ($t:ident, $max:expr) => {
         impl Cap for $t {
             const NAME: &'static str = stringify!($t);
+            const EXACT_MAX: i64 = $max;
             fn of(w: i64) -> Self { w as $t }
             fn show(self) -> String { self.to_string() }
             fn is_zero(self) -> bool { self == 0 }
         }
     };
 }
-cap_int!(u32);
-cap_int!(u64);
-cap_int!(usize);
+cap_int!(u32, u32::MAX as i64);
+cap_int!(u64, i64::MAX);
+cap_int!(usize, i64::MAX);
 macro_rules! cap_float {
-    ($t:ident) => {
+    ($t:ident, $q:expr, $max:expr) => {
         impl Cap for $t {
             const NAME: &'static str = stringify!($t);
+            const QNAME: &'static str = $q;
+            const EXACT_MAX: i64 = $max;
             fn of(w: i64) -> Self { w as $t }
+            fn of_q(w: i64) -> Self { (w as $t) / 4.0 }
             fn show(self) -> String {
-                if self.is_finite() && self.fract() == 0.0 && self.abs() < 1e15 { format!("{}", self as i64) } else { format!("{:?}", self) }
+                if self.is_finite() && self.fract() == 0.0 && self.abs() < 4.0e18 { format!("{}", self as i64) } else { format!("{:?}", self) }
             }
+            fn show_q(self) -> String { (self * 4.0).show() }
             fn is_zero(self) -> bool { self == 0.0 }
         }
     };
 }
-cap_float!(f64);
-cap_float!(f32);
+cap_float!(f64, "f64q", 1i64 << 53);
+cap_float!(f32, "f32q", 1i64 << 24);
 
-fn flow_request<G>(ctx: &mut Ctx, g: G, s: G::NodeId, t: G::NodeId, sa: usize, ta: usize, eid: &[usize])
+fn flow_request<G>(ctx: &mut Ctx, g: G, s: G::NodeId, t: G::NodeId, sa: usize, ta: usize, eid: &[usize], quarter: bool)
 where
     G: NodeCount + EdgeCount + IntoEdgesDirected + EdgeIndexable + NodeIndexable + DataMap + Visitable + Copy,
     G::EdgeWeight: core::ops::Sub<Output = G::EdgeWeight> + PositiveMeasure + Cap,
 {
     let eb = g.edge_bound();
+    let sh = |x: G::EdgeWeight| if quarter { x.show_q() } else { x.show() };
     let r = catch(|| {
         let (value, flows) = ford_fulkerson(g, s, t);
         let mut per: Vec<(usize, String)> = Vec::new();
         let mut vacnz = 0;
         for (i, f) in flows.iter().enumerate() {
             match eid.get(i) {
-                Some(&k) if k != usize::MAX => per.push((k, f.show())),
+                Some(&k) if k != usize::MAX => per.push((k, sh(*f))),
                 _ => {
                     if !f.is_zero() {
                         vacnz += 1;
@@ -750,15 +832,42 @@ where
             }
         }
         per.sort();
-        format!("value={} len={} flows={} vacnz={}", value.show(), flows.len(), list(per.iter().map(|(k, f)| format!("{}:{}", k, f))), vacnz)
+        format!("value={} len={} flows={} vacnz={}", sh(value), flows.len(), list(per.iter().map(|(k, f)| format!("{}:{}", k, f))), vacnz)
     });
-    ctx.line(&format!("flow {} {} w={} eb={}", sa, ta, <G::EdgeWeight as Cap>::NAME, eb), &r.unwrap_or("panic".into()));
+    let name = if quarter { <G::EdgeWeight as Cap>::QNAME } else { <G::EdgeWeight as Cap>::NAME };
+    ctx.line(&format!("flow {} {} w={} eb={}", sa, ta, name, eb), &r.unwrap_or("panic".into()));
 }
 
 fn flow_case_w<W>(ctx: &mut Ctx, rng: &mut Rng, ag: &AG, sa: usize, ta: usize)
 where
     W: core::ops::Sub<Output = W> + PositiveMeasure + Cap,
 {
+    // quarter mode (float types): the integer weights of the graph line are 4 * capacity, the real
+    // capacities are the dyadic non-integers w/4 and every printed number is multiplied by 4
+    let quarter = !W::QNAME.is_empty() && rng.chance(40);
+    // big mode: all capacities multiplied by one factor K such that every capacity and the sum of the
+    // capacities out of the source stay within the exact range of the type (the hypothesis of
+    // C15_bounded_capacities, checked by the driver): values next to the limit of the type
+    let enc_kind = rng.weighted(&[30, 15, 40, 15]);
+    let scaled;
+    let ag = if rng.chance(20) {
+        // (in the `Reversed` encoding the network is the reverse: the edges out of the source are `ag`'s edges into it)
+        let outsum: i64 = ag.edges.iter().filter(|e| if enc_kind == 3 { e.1 == sa && e.0 != sa } else { e.0 == sa && e.1 != sa }).map(|e| e.2).sum();
+        let maxcap: i64 = ag.edges.iter().map(|e| e.2).max().unwrap_or(0);
+        let kmax = W::EXACT_MAX / outsum.max(maxcap).max(1);
+        let k = match rng.below(4) {
+            0 => kmax,
+            1 => kmax / 2 + 1,
+            2 => 1i64 << (63 - (kmax.max(1) as u64).leading_zeros()),
+            _ => 1 + rng.range(0, (kmax - 1).min(1 << 40)),
+        };
+        let k = k.clamp(1, kmax.max(1));
+        scaled = AG { directed: ag.directed, n: ag.n, edges: ag.edges.iter().map(|&(a, b, w)| (a, b, w * k)).collect() };
+        &scaled
+    } else {
+        ag
+    };
+    let of = |w: i64| if quarter { W::of_q(w) } else { W::of(w) };
     let n = ag.n;
     let node_order = random_perm(rng, n);
     let edge_order = random_perm(rng, ag.edges.len());
@@ -766,44 +875,44 @@ where
     for (i, &a) in node_order.iter().enumerate() {
         inv[a] = i;
     }
-    match rng.weighted(&[30, 15, 40, 15]) {
+    match enc_kind {
         0 => {
             let e = enc_graph::<Directed, u32>(ag, &node_order, &edge_order);
-            let g0 = e.g.map(|_, &a| a, |_, &w| W::of(w));
+            let g0 = e.g.map(|_, &a| a, |_, &w| of(w));
             let g = &g0;
             let abs = |x: petgraph::graph::NodeIndex<u32>| g[x];
             let conc = |a: usize| petgraph::graph::NodeIndex::<u32>::new(inv[a]);
             ctx.line(&format!("{} enc=graph32", view_line(ag, g, &abs, &|er, _| e.eid[EdgeRef::id(&er).index()])), "ok");
-            flow_request(ctx, g, conc(sa), conc(ta), sa, ta, &e.eid);
+            flow_request(ctx, g, conc(sa), conc(ta), sa, ta, &e.eid, quarter);
         }
         1 => {
             let e = enc_graph::<Directed, u8>(ag, &node_order, &edge_order);
-            let g0 = e.g.map(|_, &a| a, |_, &w| W::of(w));
+            let g0 = e.g.map(|_, &a| a, |_, &w| of(w));
             let g = &g0;
             let abs = |x: petgraph::graph::NodeIndex<u8>| g[x];
             let conc = |a: usize| petgraph::graph::NodeIndex::<u8>::new(inv[a]);
             ctx.line(&format!("{} enc=graph8", view_line(ag, g, &abs, &|er, _| e.eid[EdgeRef::id(&er).index()])), "ok");
-            flow_request(ctx, g, conc(sa), conc(ta), sa, ta, &e.eid);
+            flow_request(ctx, g, conc(sa), conc(ta), sa, ta, &e.eid, quarter);
         }
         2 => {
             let e = enc_stable::<Directed, u32>(rng, ag, &node_order, &edge_order, true);
-            let g0 = e.g.map(|_, &a| a, |_, &w| W::of(w));
+            let g0 = e.g.map(|_, &a| a, |_, &w| of(w));
             let g = &g0;
             let cidx: Vec<_> = { let mut v = vec![petgraph::graph::NodeIndex::<u32>::new(0); n]; for x in g.node_indices() { v[g[x]] = x; } v };
             let abs = |x: petgraph::graph::NodeIndex<u32>| g[x];
             ctx.line(&format!("{} enc=stable", view_line(ag, g, &abs, &|er, _| e.eid[EdgeRef::id(&er).index()])), "ok");
-            flow_request(ctx, g, cidx[sa], cidx[ta], sa, ta, &e.eid);
+            flow_request(ctx, g, cidx[sa], cidx[ta], sa, ta, &e.eid, quarter);
         }
         _ => {
             // Reversed(&Graph): the abstract network is the reverse
             let rag = AG { directed: true, n: ag.n, edges: ag.edges.iter().map(|&(a, b, w)| (b, a, w)).collect() };
             let e = enc_graph::<Directed, u32>(ag, &node_order, &edge_order);
-            let g0 = e.g.map(|_, &a| a, |_, &w| W::of(w));
+            let g0 = e.g.map(|_, &a| a, |_, &w| of(w));
             let g = Reversed(&g0);
             let abs = |x: petgraph::graph::NodeIndex<u32>| g0[x];
             let conc = |a: usize| petgraph::graph::NodeIndex::<u32>::new(inv[a]);
             ctx.line(&format!("{} enc=reversed", view_line(&rag, g, &abs, &|er, _| e.eid[EdgeRef::id(&er).index()])), "ok");
-            flow_request(ctx, g, conc(sa), conc(ta), sa, ta, &e.eid);
+            flow_request(ctx, g, conc(sa), conc(ta), sa, ta, &e.eid, quarter);
         }
     }
 }
@@ -922,11 +1031,20 @@ pub struct MatchingCase {
 /// share (percent) of the non-exhaustive cases that come from the large blossom families
 const LARGE_PCT: u32 = 50;
 
+/// share (percent) of the non-exhaustive cases that come from the XL family (20..40 nodes); taken first,
+/// the remaining cases split as before
+const XL_PCT: u32 = 20;
+
 /// consumes `rng` exactly like `run` does up to and including the generation of the abstract graph;
 /// `None` = this case is a flow case (or an exhaustive thorough-tier case)
 pub fn gen_matching_case(thorough: bool, rng: &mut Rng, case: u64) -> Option<MatchingCase> {
     if thorough && case < 1024 + 32768 + 4096 {
         return None;
+    }
+    if rng.chance(XL_PCT) {
+        let directed = rng.chance(15);
+        let (ag, family) = gen_xl_matching_graph(rng, directed);
+        return Some(MatchingCase { ag, family, directed });
     }
     if rng.chance(LARGE_PCT) {
         let directed = rng.chance(15);
